@@ -18,7 +18,7 @@ pub const LUA_BUDGET: u64 = 4_000_000;
 pub enum Verdict {
     Ok { nontrivial: bool },
     Skip(&'static str),
-    Fail { sig: String, detail: String, preds: Vec<String> },
+    Fail { sig: String, detail: String, preds: Vec<String>, expected_out: Vec<String>, expected_end: String },
 }
 
 pub struct Checked {
@@ -55,6 +55,28 @@ pub fn structural_preds(p: &Program, lua: Option<&[u8]>) -> Vec<String> {
     v
 }
 
+fn has_field_read(e: &Expr) -> bool {
+    match e {
+        Expr::Field(..) => true,
+        Expr::Bin(_, a, b) => has_field_read(a) || has_field_read(b),
+        Expr::Un(_, a) | Expr::Paren(a) | Expr::Index(a, _) => has_field_read(a),
+        Expr::Call(_, args, _) => args.iter().any(has_field_read),
+        Expr::Tuple(xs) | Expr::List(xs) => xs.iter().any(has_field_read),
+        _ => false,
+    }
+}
+
+fn has_call(e: &Expr) -> bool {
+    match e {
+        Expr::Call(..) => true,
+        Expr::Bin(_, a, b) => has_call(a) || has_call(b),
+        Expr::Un(_, a) | Expr::Paren(a) | Expr::Index(a, _) | Expr::Field(a, _) => has_call(a),
+        Expr::Tuple(xs) | Expr::List(xs) => xs.iter().any(has_call),
+        Expr::If(..) | Expr::Case(..) => true,
+        _ => false,
+    }
+}
+
 fn features(p: &Program) -> Vec<String> {
     let mut f = std::collections::BTreeSet::new();
     fn ex(e: &Expr, f: &mut std::collections::BTreeSet<String>, value_pos: bool) {
@@ -89,6 +111,9 @@ fn features(p: &Program) -> Vec<String> {
             Expr::Bin(op, a, b) => {
                 if matches!(op, BinOp::And | BinOp::Or) {
                     f.insert("short-circuit".into());
+                }
+                if has_field_read(a) && has_call(b) {
+                    f.insert("field-read-left-of-a-call-in-one-binary-expression".into());
                 }
                 ex(a, f, true);
                 ex(b, f, true);
@@ -207,7 +232,7 @@ pub fn check_semantics(p: &mut Program) -> Checked {
         text, rt.out, rt.end, lr.out, lr.end
     );
     let preds = structural_preds(p, Some(&lua));
-    Checked { verdict: Verdict::Fail { sig, detail, preds }, text, lua: Some(lua) }
+    Checked { verdict: Verdict::Fail { sig, detail, preds, expected_out: rt.out.clone(), expected_end: format!("{:?}", want_end) }, text, lua: Some(lua) }
 }
 
 pub fn record(acc: &mut Stats, engine: &str, family: &str, p: &mut Program, sample: bool) {
@@ -236,12 +261,12 @@ pub fn record(acc: &mut Stats, engine: &str, family: &str, p: &mut Program, samp
                 }
             }
         }
-        Verdict::Fail { sig, detail, preds } => {
+        Verdict::Fail { sig, detail, preds, expected_out, expected_end } => {
             acc.traces_validated += 1;
             acc.outcome(&sig);
             let mut files = serde_json::Map::new();
             files.insert(MAIN.to_string(), json!(c.text));
-            acc.fail(Failure { sig, preds, detail, case: json!({"engine": engine, "family": family, "files": files}), size: c.text.len() });
+            acc.fail(Failure { sig, preds, detail, case: json!({"engine": engine, "family": family, "files": files, "expected_out": expected_out, "expected_end": expected_end}), size: c.text.len() });
         }
     }
 }
@@ -261,16 +286,15 @@ pub fn expr_space(max_size: usize) -> Vec<(T, usize, Arc<Vec<Expr>>)> {
     v
 }
 
-pub fn run(run: &mut Run) {
-    let thorough = run.thorough();
+/// Enumerates every program of the expression and statement families and hands it to `handler`.
+pub fn for_each_program(thorough: bool, family_filter: &(dyn Fn(&str) -> bool + Sync), handler: &(dyn Fn(&mut Stats, &str, &mut Program, bool) + Sync)) -> (Stats, serde_json::Value) {
     // expression space: all contexts up to size A, print-only context up to size B
     let (all_ctx_size, print_size) = if thorough { (2, 3) } else { (1, 2) };
     let space = expr_space(print_size);
-    // work items: (slice index, context)
     let mut items: Vec<(usize, usize, u64)> = Vec::new(); // (slice, ctx, count)
     for (si, (_, size, xs)) in space.iter().enumerate() {
         for c in 0..N_CONTEXTS {
-            if c == 0 || *size <= all_ctx_size {
+            if (c == 0 || *size <= all_ctx_size) && family_filter(&format!("expr@{}", context_name(c))) {
                 items.push((si, c, xs.len() as u64));
             }
         }
@@ -292,25 +316,34 @@ pub fn run(run: &mut Run) {
         let e = xs[(i - offsets[k]) as usize].clone();
         if let Some(mut p) = place(c, *t, e) {
             let fam = format!("expr:{:?}:size{}@{}", t, size, context_name(c));
-            record(acc, "c01", &fam, &mut p, i % 20011 == 0);
+            handler(acc, &fam, &mut p, i % 20011 == 0);
             acc.count(&format!("context:{}", context_name(c)), 1);
         }
     }, &stop);
     let mut st = Stats::merge_all(accs);
     // statement-level families
-    let progs = crate::stmtfam::all_programs(thorough);
+    let progs: Vec<(String, Program)> = crate::stmtfam::all_programs(thorough).into_iter().filter(|(f, _)| family_filter(f)).collect();
     let accs = crate::pool::par_items(&progs, 64, |_| Stats::new(), |acc, i, (fam, p)| {
         let mut p = p.clone();
-        record(acc, "c01", fam, &mut p, i % 5003 == 0);
-        acc.count(&format!("family:{}", fam), 1);
+        handler(acc, fam, &mut p, i % 5003 == 0);
+        acc.count(&format!("family:{}", fam.split(':').next().unwrap_or(fam)), 1);
     });
     st.merge(Stats::merge_all(accs));
     for (t, size, xs) in &space {
         st.count(&format!("expressions:{:?}:size{}", t, size), xs.len() as u64);
     }
+    let bounds = json!({"expression_size_all_contexts": all_ctx_size, "expression_size_print_context": print_size, "contexts": (0..N_CONTEXTS).map(context_name).collect::<Vec<_>>(), "reference_budget": REF_BUDGET, "lua_budget": LUA_BUDGET,
+        "statement_family_sequence_length": if thorough {4} else {3}});
+    (st, bounds)
+}
+
+pub const FAMILY_RULE: &str = "expression families: every well-typed expression with exactly n operator nodes (type-directed generation over ints, floats, bools, strings, tuples, blobs, enum values, lists; operators, calls with side effects, field/index access, if- and case-expressions) placed in every one of 24 statement contexts; statement families: every sequence of actions over themed menus (loops with break/continue/ret, closures, blobs with self, enums, globals) and the recursion templates (a value held across the recursive call at every expression position, depth 1-3); non-trivial = the reference trace prints something or ends abnormally; distinct by program text";
+
+pub fn run(run: &mut Run) {
+    let (st, bounds) = for_each_program(run.thorough(), &|_| true, &|acc, fam, p, sample| record(acc, "c01", fam, p, sample));
     run.stats = st;
-    run.rule = "expression families: every well-typed expression with exactly n operator nodes (type-directed generation over ints, floats, bools, strings, tuples, blobs, enum values, lists; operators, calls with side effects, field/index access, if- and case-expressions) placed in every one of 24 statement contexts; statement families: every sequence over themed statement menus (loops with break/continue/ret, closures, recursion, blobs with self, enums, globals); non-trivial = the reference trace prints something or ends abnormally; distinct by program text".into();
-    run.bounds = json!({"expression_size_all_contexts": all_ctx_size, "expression_size_print_context": print_size, "contexts": (0..N_CONTEXTS).map(context_name).collect::<Vec<_>>(), "reference_budget": REF_BUDGET, "lua_budget": LUA_BUDGET});
+    run.rule = FAMILY_RULE.into();
+    run.bounds = bounds;
     run.assumptions = vec![
         "MiniLua stands in for lua5.3 (validated by its conformance corpus and by the repository's program tests)".into(),
         "RefSylt decisions of DESIGN.md §3.3; programs whose meaning depends on whether an assignment reads its target before or after evaluating its right-hand side are skipped and counted".into(),
@@ -319,26 +352,19 @@ pub fn run(run: &mut Run) {
 }
 
 pub fn replay(case: &serde_json::Value) -> Option<(String, String)> {
-    // replay works on the text: compile + run, and compare with the reference outcome recorded in detail
-    // (the AST is not serialised; the failing text is re-checked for load/run errors and re-compared
-    // through a fresh enumeration when the family is known)
+    // the failing program text is recompiled and re-run; its trace is compared with the reference
+    // trace recorded when the case was found (the AST itself is not serialised)
     let text = case["files"][MAIN].as_str()?;
-    let out = compile_src(text);
-    match out {
+    let want_out: Vec<String> = case["expected_out"].as_array()?.iter().filter_map(|x| x.as_str().map(|s| s.to_string())).collect();
+    let want_end = case["expected_end"].as_str().unwrap_or("");
+    match compile_src(text) {
         Outcome::Ok(lua) => {
             let r = run_lua(&lua, LUA_BUDGET);
-            match r.end {
-                LuaEnd::LoadError(m) => Some(("load-error".into(), m)),
-                LuaEnd::RuntimeError(m) => Some(("lua-runtime-error".into(), m)),
-                LuaEnd::Crash(m) => Some(("lua-crash".into(), m)),
-                _ => {
-                    println!("lua trace: {:?} {:?}", r.out, r.end);
-                    let want = case["expected_out"].as_array().map(|a| a.iter().filter_map(|x| x.as_str().map(|s| s.to_string())).collect::<Vec<_>>());
-                    match want {
-                        Some(w) if w != r.out => Some(("trace-mismatch".into(), format!("expected {:?} got {:?}", w, r.out))),
-                        _ => None,
-                    }
-                }
+            let got_end = format!("{:?}", Some(&r.end));
+            if r.out != want_out || got_end != want_end {
+                Some(("trace-mismatch".into(), format!("reference: out={:?} end={}\nlua:       out={:?} end={}", want_out, want_end, r.out, got_end)))
+            } else {
+                None
             }
         }
         other => Some(("does-not-compile".into(), other.short())),
